@@ -139,6 +139,20 @@ Theorem C01_unknown_key_commands_frame : forall d now nowms args hint r d' k,
 Proof. exact commands_frame. Qed.
 Print Assumptions C01_unknown_key_commands_frame.
 
+(* The same, spelled out: a string/generic command leaves every key it does not name with the same
+   value, the same type (what TYPE answers afterwards) and the same deadline; an absent key stays
+   absent.  The model keeps one value per key, no two keys share anything -- which is what the
+   tie's comparison of the whole keyspace after every step holds the implementation to. *)
+Theorem C01_command_touches_only_named_keys : forall d now nowms args hint r d',
+  db_wf d -> c01_command args = true -> exec d now nowms args hint = (r, d') ->
+  forall k, ~ In k (keys_named args) ->
+    (forall v t, view d now k = Some (v, t) ->
+       view d' now k = Some (v, t) /\
+       (exists c, lower c = B "type" /\ fst (exec d' now nowms [c; k] hint) = RSimple (ref_type_name v))) /\
+    (view d now k = None -> view d' now k = None).
+Proof. exact command_touches_only_named_keys. Qed.
+Print Assumptions C01_command_touches_only_named_keys.
+
 (* INCR / DECR / INCRBY / DECRBY on a stored integer n: either the exact sum n + delta (in Z) is in
    the int64 range, is the reply, and is stored as its canonical decimal (which reads back as the
    same number) with the deadline kept -- or it is outside the range, the reply is an error and
@@ -362,3 +376,9 @@ Example ex_setrange_gap :
   = [ rOK; RInt 5; RBulk ("a" :: "b" :: "c" :: "000" :: "X" :: nil)%byte; RInt 3; RBulk ("000" :: "000" :: "Z" :: nil)%byte ].
 Proof. vm_compute. reflexivity. Qed.
 
+(* equal values are independent values: two counters with the same value, each appended to *)
+Example ex_no_aliasing :
+  replies (run empty_db [ st 1000 [B "INCR"; B "a"]; st 1000 [B "INCR"; B "b"]; st 1000 [B "APPEND"; B "a"; B "0"];
+                          st 1000 [B "APPEND"; B "b"; B "5"]; st 1000 [B "MGET"; B "a"; B "b"]; st 1000 [B "INCR"; B "a"] ])
+  = [ RInt 1; RInt 1; RInt 2; RInt 2; RArr [RBulk (B "10"); RBulk (B "15")]; RInt 11 ].
+Proof. vm_compute. reflexivity. Qed.
